@@ -1,2 +1,2 @@
 (* Everything executable, for extraction and for cases.v files. *)
-From N2 Require Export Base.Base Model.Canon Model.Scanner Model.Depfile Model.Render Model.Proc Model.Sched Model.Invocation Model.Db Model.Parse Model.Load.
+From N2 Require Export Base.Base Model.Canon Model.Scanner Model.Depfile Model.Render Model.Proc Model.Sched Model.Invocation Model.Db Model.Parse Model.Load Model.Hash Model.World.
